@@ -35,6 +35,12 @@ func runC17Replay(c *core.Ctx) error {
 	str := func(m map[string]interface{}, k string) string { s, _ := m[k].(string); return s }
 	for _, cs := range rp.Cases {
 		kind := str(cs, "kind")
+		if kind == "layout" {
+			if err := replayLayout(c, cs); err != nil {
+				return err
+			}
+			continue
+		}
 		if srcHex := str(cs, "src_zip"); srcHex != "" && (kind == "mangle" || kind == "mangle2") {
 			src, err := hex.DecodeString(srcHex)
 			if err != nil {
